@@ -68,6 +68,9 @@ def run(ctx):
     # independence of where the run was paused: a pause may not lose or repeat an event -- every popped event is executed exactly once
     # on every path, including the path on which the run notices the stop request (shared rule with C02)
     S.r21_typestate(ctx, S.SimCtx(prog))
+    # ... nor repeat a notification: the replication start is announced once, on the first start only, however often the run is resumed
+    # (listeners that schedule their first event or draw numbers on it would run again at every pause) (shared rule with C04 / C06)
+    S.r43_notifications(ctx, S.SimCtx(prog))
     # two simulators in one process must not influence each other's order
 
 
